@@ -1,30 +1,17 @@
 #!/bin/bash
 # Which lines of repid are never executed by the checks?  Development aid (not a registered command):
-#   tools/repo_coverage.sh [tier] [checks...]   -> report in $OUT (default /root/cov)
-# Blind spots found this way are listed in DESIGN.md section 6.
+#   tools/repo_coverage.sh [tier] [checks...]   -> report in $OUT/report.txt (default /root/cov)
+# (lines executed only at import time in the parent process count as missed; see mc/linecov.py)
 set -u
 tier="${1:-quick}"; shift || true
 checks="${*:-C01 C02 C03 C04 C05 C06 C07 C08 C09 C10 C11 C12 C13 C14 C15 C16 C17 C18 C19 C20}"
 OUT="${OUT:-/root/cov}"
-rm -rf "$OUT"; mkdir -p "$OUT"
-cat > "$OUT/rc" <<RC
-[run]
-source = /repo/repid
-concurrency = multiprocessing
-parallel = True
-data_file = $OUT/.coverage
-sigterm = True
-branch = False
-[report]
-show_missing = True
-RC
+rm -rf "$OUT"; mkdir -p "$OUT/data"
 cd /verif
-export TZ=UTC PYTHONHASHSEED=0 PYTHONPATH=/repo:/verif PYTHONDONTWRITEBYTECODE=1 REPID_VERIF=1 COVERAGE_RCFILE="$OUT/rc"
 cp -r evidence "$OUT/evidence.bak"
 for c in $checks; do
-  /venv/bin/python -m coverage run -m mc.run "$c" "$tier" | tail -1
+  MC_COVER="$OUT/data" timeout 1800 ./check "$c" "$tier" | tail -1
 done
 rm -rf evidence; mv "$OUT/evidence.bak" evidence
-/venv/bin/python -m coverage combine -q
-/venv/bin/python -m coverage report > "$OUT/report.txt"
-tail -n +1 "$OUT/report.txt"
+PYTHONPATH=/verif /venv/bin/python -m mc.linecov "$OUT/data" > "$OUT/report.txt"
+cat "$OUT/report.txt"
